@@ -23,12 +23,12 @@ ID = 'C14'
 MODULE = 'SshAudit.Props.C14'
 NAMESPACE = 'SshAudit.C14'
 THEOREMS = ['numCmp_antisymm', 'numCmp_trans', 'compareVersionNumbers_numeric', 'splitOther_grammar',
-            'compare_numeric', 'compare_numeric_software', 'compare_numeric_one_digit_false', 'compare_numeric_examples',
+            'compare_numeric', 'compare_numeric_nat', 'compare_numeric_software', 'compare_numeric_one_digit_false', 'compare_numeric_examples',
             'compare_antisymm', 'compare_trans', 'compare_trans_strict', 'compare_sign',
             'openssh_patch_order', 'openssh_p1_same_as_plain', 'dropbear_test_older_than_release',
             'hpn_triple_not_transitive', 'openssh_p0_not_transitive',
             'between_numeric', 'admits_iff_numeric', 'available_iff_numeric', 'release_patch_ok',
-            'slotStep_numeric', 'db_versions_order_safe']
+            'slotStep_numeric', 'timeframe_fold_numeric', 'db_versions_order_safe', 'db_timeframe_numeric']
 TECHNIQUE = ('Lean 4 theorems (induction over component lists, generic lexicographic-order lemmas, finite case split over the OpenSSH patch grammar, '
              'kernel-evaluated obligation over the regenerated database) about a hand-written model of software.py/algorithm.py/timeframe.py '
              '+ differential correspondence with the Python code + independent numeric oracle on the real classes and on whole audits')
@@ -139,6 +139,12 @@ def tf_storage(tf):
     return [[p, list(v)] for p, v in st.items()]
 
 
+def tf_full(tf):
+    return {'storage': tf_storage(tf),
+            'queries': [[p in tf, tf.get_from(p, True), tf.get_till(p, True), tf.get_from(p, False), tf.get_till(p, False)]
+                        for p in (OPENSSH, DROPBEAR, LIBSSH, 'TinySSH')]}
+
+
 class _CustomAlgs(object):
     pass
 
@@ -218,7 +224,7 @@ def impl(op, a):
             tf = Timeframe()
             for v in a[1]:
                 tf.update(v, a[0])
-            return tf_storage(tf)
+            return tf_full(tf)
         return guard(run)
     if op == 'ver.dbtf':
         def run():
@@ -227,7 +233,7 @@ def impl(op, a):
                 algs = real_algs(a[2], a[3], a[4], a[5])
             else:
                 algs = ssh1_algs(a[3], a[4])
-            return tf_storage(algs.get_ssh_timeframe(a[0]))
+            return tf_full(algs.get_ssh_timeframe(a[0]))
         return guard(run)
     if op == 'ver.dbversions':
         return guard(lambda: [list(x) for x in db_versions()])
